@@ -86,6 +86,10 @@ fn main() {
             Some(f) => driver::digest(f, &args[2], args[3].parse().unwrap(), args[4].parse().unwrap()),
             None => 2,
         },
+        Some("outcomes") if args.len() >= 5 => match family(&args[2]) {
+            Some(f) => driver::outcomes(f, &args[2], &args[3], args[4].parse().unwrap(), args.get(5).and_then(|s| s.parse().ok()).unwrap_or(1)),
+            None => 2,
+        },
         Some("replay") if args.len() >= 3 => {
             let doc: serde_json::Value = std::fs::read(&args[2])
                 .ok()
